@@ -42,6 +42,7 @@
 
 extern char *__brkval;
 extern struct __freelist *__flp;
+extern int __allocation_counter;
 
 static igris::syslock lock;
 
@@ -100,6 +101,7 @@ void *realloc(void *ptr, size_t len)
         fp2 = (struct __freelist *)cp;
         fp2->sz = fp1->sz - len - sizeof(size_t);
         fp1->sz = len;
+        __allocation_counter++; /* free() below counts the tail as an allocation that ends */
         free(&(fp2->nx));
         return ptr;
     }
